@@ -67,6 +67,9 @@ run "s3s-aws/conv: PutObjectInput.cache_control dropped on the way to the SDK ty
 # 9 path: keys of exactly 1024 bytes refused
 sed -i 's/key.len() <= 1024/key.len() < 1024/' crates/s3s/src/path.rs
 run "path: a key of exactly 1024 bytes is refused" C12
+# 11 every secret lookup falls back to an empty secret when the provider does not know the key
+sed -i 's/let secret_key = auth.get_secret_key(access_key).await?;/let secret_key = auth.get_secret_key(access_key).await.unwrap_or_else(|_| crate::auth::SecretKey::from(""));/; s/let secret_key = auth.get_secret_key(&access_key).await?;/let secret_key = auth.get_secret_key(\&access_key).await.unwrap_or_else(|_| crate::auth::SecretKey::from(""));/' crates/s3s/src/ops/signature.rs
+run "ops/signature: unknown access keys are verified against an empty secret" C05 C06 C07 C10 C11
 # 10 s3s-fs: list omits the last key
 python3 - <<'EOF'
 p='crates/s3s-fs/src/s3.rs'; s=open(p).read()
